@@ -195,6 +195,11 @@ pub fn run_case(shard: &mut Shard, w: &mut World, case: &Case, ctx: &CaseCtx) ->
     let pre = w.all_holdings();
     let mut model = Model::new(&w.res, &pre);
     let predicted = model.run(&case.ins);
+    if std::env::var("RV_FLOW_DEBUG").is_ok() {
+        if let Outcome::Fail { at, class } = &predicted {
+            eprintln!("DEBUG {:?} at {} : {:?}", class, at, case.ins.get(*at));
+        }
+    }
 
     // ---------------- static side
     let m1 = if case.v2 { None } else { manifest_v1(w, &case.ins) };
